@@ -275,6 +275,22 @@ func c03Leaf(r *core.Run) {
 			if core.IsCallTo(in, "(*"+ssaPkgPath+".FreeVar).Type") {
 				fvTyped = true
 			}
+			// ... or the captured variable is handed to a helper that renders its Type()
+			if c := core.CallOf(in); c != nil {
+				if g := core.StaticCallee(c); g != nil && p.IsProdFunc(g) && g.Blocks != nil {
+					for i, a := range c.Args {
+						if i >= len(g.Params) || !strings.HasSuffix(core.Unwrap(a).Type().String(), "ssa.FreeVar") {
+							continue
+						}
+						pa := g.Params[i]
+						core.InstrsOf(g, func(in2 ssa.Instruction) {
+							if c2 := core.CallOf(in2); c2 != nil && c2.IsInvoke() && c2.Value == ssa.Value(pa) && c2.Method.Name() == "Type" {
+								fvTyped = true
+							}
+						})
+					}
+				}
+			}
 		})
 		writesSig := false
 		core.InstrsOf(fn, func(in ssa.Instruction) {
@@ -564,21 +580,13 @@ func c03GateComm(r *core.Run, rule string) {
 	numericOnly := map[token.Token]bool{token.ADD: true}
 	n := 0
 	numericGuard := func(cond ssa.Value) (bool, bool) {
-		op, x, y, neg, ok := core.Compare(cond)
-		if !ok || neg || op != token.NEQ {
-			return false, false
-		}
-		b, isAnd := x.(*ssa.BinOp)
-		if !isAnd || b.Op != token.AND {
+		b, nonZeroOnTrue, ok := maskTest(cond)
+		if !ok {
 			return false, false
 		}
 		k, _ := core.ConstInt(b.Y)
-		z, isZ := core.ConstInt(y)
-		if !isZ || z != 0 {
-			return false, false
-		}
 		num := int64(types.IsInteger | types.IsFloat | types.IsComplex)
-		return k != 0 && k&^num == 0, true
+		return k != 0 && k&^num == 0, nonZeroOnTrue
 	}
 	// predicate in the renderer: func(*ssa.BinOp) bool
 	for _, fn := range p.FuncsIn("pkg/analysis/ir") {
